@@ -260,6 +260,9 @@ def chunk_pages(rep, de, vals, max_def, cuts):
 def leaf_columns(col):
     """col: dict(name, kind 'list'|'map', row_opt, elem_opt, ptype[, key_ptype]) ->
     list of leaf descriptions (path, row_opt, elem_opt, ptype, which) in file order."""
+    if col["kind"] == "flat":
+        # an ordinary REQUIRED primitive column next to the nested ones (no levels at all)
+        return [dict(path=[col["name"]], row_opt=False, elem_opt=False, ptype=col["ptype"], which="flat")]
     if col["kind"] == "list":
         return [dict(path=[col["name"], "list", "element"], row_opt=col["row_opt"],
                      elem_opt=col["elem_opt"], ptype=col["ptype"], which="elem")]
@@ -271,7 +274,7 @@ def leaf_columns(col):
 
 def leaf_rows(col, leaf, rows):
     """Project the rows of a column on one leaf: lists stay, maps (lists of (k, v) pairs) split."""
-    if col["kind"] == "list":
+    if col["kind"] in ("list", "flat"):
         return rows
     k = 0 if leaf["which"] == "key" else 1
     return [None if r is None else [kv[k] for kv in r] for r in rows]
@@ -283,6 +286,10 @@ def schema_elements(cols):
                      pt.FieldRepetitionType.REPEATED)
     out = [pt.SchemaElement(name="schema", num_children=len(cols), i32=1)]
     for c in cols:
+        if c["kind"] == "flat":
+            t, ct = PTYPES[c["ptype"]]
+            out.append(pt.SchemaElement(name=c["name"], type=t, converted_type=ct, repetition_type=REQ, i32=1))
+            continue
         top = OPT if c["row_opt"] else REQ
         if c["kind"] == "list":
             t, ct = PTYPES[c["ptype"]]
@@ -327,8 +334,13 @@ def write_file(path, cols, row_groups):
             for leaf in leaf_columns(c):
                 lay = rg["layout"][c["name"] + "/" + leaf["which"]]
                 lrows = leaf_rows(c, leaf, rows)
-                rep, de, vals = shred(lrows, leaf["row_opt"], leaf["elem_opt"])
-                _, _, max_def = levels_of_shape(leaf["row_opt"], leaf["elem_opt"])
+                if leaf["which"] == "flat":
+                    max_rep, max_def = 0, 0
+                    rep, de, vals = [0] * len(rows), [0] * len(rows), list(rows)
+                else:
+                    max_rep = 1
+                    rep, de, vals = shred(lrows, leaf["row_opt"], leaf["elem_opt"])
+                    _, _, max_def = levels_of_shape(leaf["row_opt"], leaf["elem_opt"])
                 pages = chunk_pages(rep, de, vals, max_def, lay["cuts"])
                 start = len(body)
                 codec = lay.get("codec")
@@ -352,7 +364,7 @@ def write_file(path, cols, row_groups):
                     encs = [pt.Encoding.RLE, pt.Encoding.PLAIN, pt.Encoding.RLE_DICTIONARY]
                 data_off = len(body)
                 for (r, d, v, nr) in pages:
-                    pg, us = data_page(r, d, v, 1, max_def, leaf["ptype"], lay["version"], dictionary,
+                    pg, us = data_page(r, d, v, max_rep, max_def, leaf["ptype"], lay["version"], dictionary,
                                        lay.get("level_style", "mixed"), nr, codec)
                     body += pg
                     usize_total += us
